@@ -628,6 +628,8 @@ def check_files(ctx, au, rule="c04"):
 
 
 def ctx_repo(ctx):
+    if getattr(ctx, "repo", None):
+        return ctx.repo
     meta = os.path.join(ctx.facts_dir, "META.json")
     if os.path.exists(meta):
         return json.load(open(meta)).get("repo", REPO)
